@@ -15,6 +15,22 @@ inductive PState
   | tailCR | tailLF
   deriving DecidableEq, Repr
 
+/-- all states, in the order of the Go enum (nbhttp/state.go); `PState.num` is the value of the Go constant.
+    Tied to the code by `Lemmas/HttpTables.lean` against the regenerated `Generated/HttpTables.lean`. -/
+def PState.names : List (PState × String) :=
+  [(.close, "close"), (.methodBefore, "methodBefore"), (.method, "method"), (.pathBefore, "pathBefore"), (.path, "path"),
+   (.protoBefore, "protoBefore"), (.proto, "proto"), (.protoLF, "protoLF"), (.clientProtoBefore, "clientProtoBefore"),
+   (.clientProto, "clientProto"), (.statusCodeBefore, "statusCodeBefore"), (.statusCode, "statusCode"),
+   (.statusBefore, "statusBefore"), (.status, "status"), (.statusLF, "statusLF"), (.headerKeyBefore, "headerKeyBefore"),
+   (.headerValueLF, "headerValueLF"), (.headerKey, "headerKey"), (.headerValueBefore, "headerValueBefore"),
+   (.headerValue, "headerValue"), (.bodyContentLength, "bodyContentLength"), (.headerOverLF, "headerOverLF"),
+   (.chunkSizeBefore, "chunkSizeBefore"), (.chunkSize, "chunkSize"), (.chunkSizeLF, "chunkSizeLF"), (.chunkData, "chunkData"),
+   (.chunkDataCR, "chunkDataCR"), (.chunkDataLF, "chunkDataLF"), (.trValueLF, "trValueLF"), (.trKeyBefore, "trKeyBefore"),
+   (.trKey, "trKey"), (.trValueBefore, "trValueBefore"), (.trValue, "trValue"), (.tailCR, "tailCR"), (.tailLF, "tailLF")]
+def PState.all : List PState := PState.names.map (·.1)
+/-- value of the Go state constant -/
+def PState.num (s : PState) : Nat := PState.all.idxOf s
+
 inductive Ev
   | method (m : Bytes) | url (u : Bytes) | proto (p : Bytes) | status (code : Nat) (s : Bytes)
   | header (k v : Bytes) | contentLength (n : Int) | body (d : Bytes) | trailer (k v : Bytes) | complete
@@ -69,8 +85,9 @@ def isToken (c : UInt8) : Bool :=
 def toUpper (c : UInt8) : UInt8 := if isLower c then c - 32 else c
 def toLower (c : UInt8) : UInt8 := if isUpper c then c + 32 else c
 def str (s : String) : Bytes := s.toList.map ch
+/-- keys of `validMethods` (nbhttp/table.go), sorted -/
 def validMethods : List Bytes :=
-  ["OPTIONS","GET","HEAD","POST","PUT","DELETE","TRACE","CONNECT","PATCH","PRI"].map str
+  ["CONNECT","DELETE","GET","HEAD","OPTIONS","PATCH","POST","PRI","PUT","TRACE"].map str
 def isValidMethodChar (c : UInt8) : Bool := validMethods.any (·.contains (toUpper c))
 
 def SP : UInt8 := 32
@@ -84,12 +101,14 @@ def trim (b : Bytes) : Bytes :=
 
 def trimRightSpaces (b : Bytes) : Bytes := (b.reverse.dropWhile (· == 32)).reverse
 
-/-- http.CanonicalHeaderKey on token-only input -/
+/-- textproto's canonicalisation loop: upper-case the first letter and every letter after a `-`, lower-case the rest -/
+def canonAux : Bool → Bytes → Bytes
+  | _, [] => []
+  | up, c :: cs => (if up then toUpper c else toLower c) :: canonAux (c == 45) cs
+
+/-- http.CanonicalHeaderKey: names made of token characters are canonicalised, anything else is returned unchanged -/
 def canonicalKey (b : Bytes) : Bytes :=
-  if b.all isToken then
-    (b.foldl (fun (acc : Bytes × Bool) c =>
-      (acc.1 ++ [if acc.2 then toUpper c else toLower c], c == 45)) ([], true)).1
-  else b
+  if b.all isToken then canonAux true b else b
 
 def digitVal (c : UInt8) : Nat :=
   if isNum c then c.toNat - 48 else if isUpper c then c.toNat - 55 else c.toNat - 87
@@ -122,32 +141,46 @@ def splitComma (b : Bytes) : List Bytes :=
       | [] => [[c]]
       | h :: t => (c :: h) :: t) [[]])
 
-/-- parseTransferEncoding / parseContentLength / parseTrailer at the blank line -/
+/-- `parseTransferEncoding` (parser.go:710-727): absent, or exactly one value equal to `chunked` (trimmed, any case) -/
+def parseTE (p : P) : Except E P :=
+  match p.te with
+  | [] => pure p
+  | [v] =>
+    if (trim v).map toLower ≠ str "chunked" then throw E.badTE
+    else pure { p with te := [], cl := [], chunked := true }
+  | _ :: _ :: _ => throw E.badTE
+
+/-- `parseContentLength` (parser.go:730-765): absent, or the first value with trailing spaces removed through
+    `ParseInt(·, 10, 63)` (an empty value is an error like any other non-numeric one); negative values rejected; every
+    further Content-Length value must be equal to the first (trailing spaces aside) -/
+def parseCL (p : P) : Except E P :=
+  match p.cl with
+  | [] => pure { p with contentLength := -1 }
+  | v :: rest =>
+    if rest.any (fun w => trimRightSpaces w != trimRightSpaces v) then throw E.badCL
+    else match parseCLValue (trimRightSpaces v) with
+      | none => throw E.badCL
+      | some l => if l < 0 then throw E.badCL else pure { p with contentLength := l }
+
+/-- parseTransferEncoding; parseContentLength at the blank line -/
 def endOfHeaders (p : P) : Except E P := do
-  -- transfer encoding
-  let p ← (if p.te = [] then pure p
-    else if p.te.length ≠ 1 then throw E.badTE
-    else if (trim p.te.head!).map toLower ≠ str "chunked" then throw E.badTE
-    else pure { p with te := [], cl := [], chunked := true })
-  -- content length
-  let p ← (match p.cl.head? with
-    | some v =>
-      if v = [] then pure { p with contentLength := -1 }
-      else match parseCLValue (trimRightSpaces v) with
-        | none => throw E.badCL
-        | some l => if l < 0 then throw E.badCL else pure { p with contentLength := l }
-    | none => pure { p with contentLength := -1 })
-  pure p
+  let p ← parseTE p
+  parseCL p
+
+/-- the field names announced by the `Trailer` values (`parseTrailer`): each value is trimmed, split at commas when
+    it contains one, the elements trimmed, empty ones dropped, the rest canonicalised -/
+def declaredKeys (trs : List Bytes) : List Bytes :=
+  (trs.map fun v =>
+    let v := trim v
+    if v = [] then []
+    else if !v.contains 44 then [canonicalKey v]
+    else ((splitComma v).map trim).filter (· ≠ []) |>.map canonicalKey).flatten
 
 def addTrailerKeys (p : P) : Except E P :=
   if !p.chunked then pure p
   else if p.tr = [] then pure p
   else
-    let keys := (p.tr.map fun v =>
-      let v := trim v
-      if v = [] then []
-      else if !v.contains 44 then [canonicalKey v]
-      else ((splitComma v).map trim).filter (· ≠ []) |>.map canonicalKey).flatten
+    let keys := declaredKeys p.tr
     if keys.any forbiddenTrailer then throw E.badTrailerKey
     else pure { p with tr := [], trailer := keys.eraseDups }
 
@@ -222,11 +255,11 @@ def byteStep (g : Cfg) (p : P) (tok : Bytes) (c : UInt8) : Out P Ev :=
     else if !isNum c then er .invalidStatusCode else ok p
   | .statusBefore =>
     if c == SP then er .invalidStatus
+    else if c == CR then ok { p with statusCode := 0, st := .statusLF } .keep [.status p.statusCode []]
     else if isAlpha c then ok { p with st := .status } .here else ok p
   | .status =>
-    if c == SP then ok { p with status := if p.status = [] then tok else p.status }
-    else if c == CR then
-      let s := if p.status = [] then tok else p.status
+    if c == CR then
+      let s := if p.status = [] then trimRightSpaces tok else p.status
       ok { p with statusCode := 0, status := [], st := .statusLF } .keep [.status p.statusCode s]
     else ok p
   | .statusLF => if c == LF then ok { p with st := .headerKeyBefore } else er .lfExpected
@@ -307,9 +340,8 @@ def byteStep (g : Cfg) (p : P) (tok : Bytes) (c : UInt8) : Out P Ev :=
       ok { p with hKey := [], hVal := [], st := .trValueLF } .next [.trailer p.hKey v]
     else ok { p with st := .trValue } .here
   | .trValue =>
-    if c == SP then ok { p with hVal := if p.hVal = [] then tok else p.hVal }
-    else if c == CR then
-      let v := if p.hVal = [] then tok else p.hVal
+    if c == CR then
+      let v := if p.hVal = [] then trimRightSpaces tok else p.hVal
       if p.trailer = [] then er .invalidTrailer
       else ok { p with trailer := p.trailer.erase p.hKey, hKey := [], hVal := [], st := .trValueLF } .next
              [.trailer p.hKey v]
